@@ -45,7 +45,12 @@ def plan_case(sql, integrations=None, default_namespace='mindsdb', extra=None, r
         out['status'] = 'unsupported-original:%s' % e
         return out
     try:
-        plan = plan_query(parse_sql(sql, 'mindsdb'), integrations=list(integrations or INTEGRATIONS),
+        tree2 = parse_sql(sql, 'mindsdb')
+        try:
+            str(tree2)          # a caller may have printed / logged / compared the query before planning it
+        except Exception:   # noqa
+            pass
+        plan = plan_query(tree2, integrations=list(integrations or INTEGRATIONS),
                           default_namespace=default_namespace, **(extra or {}))
     except PlanningException as e:
         out['status'] = 'planning-refused'
@@ -64,6 +69,24 @@ def plan_case(sql, integrations=None, default_namespace='mindsdb', extra=None, r
     out['fetch_sql'] = [(back.get(str(getattr(s, 'integration', '')).lower(), str(getattr(s, 'integration', ''))),
                          str(getattr(s, 'query', '')))
                         for s in plan.steps if type(s).__name__ == 'FetchDataframeStep']
+    # what a handler receives may be the TEXT of the fetch query: it must say what the tree says
+    out['fetch_text_mismatch'] = []
+    for s_ in plan.steps:
+        if type(s_).__name__ == 'FetchDataframeStep' and getattr(s_, 'query', None) is not None and not getattr(s_, 'raw_query', None):
+            try:
+                a_ = sem.query(s_.query)
+            except sem.Unsupported:
+                continue
+            if ':Result(' in str(s_.query):
+                continue        # carries a step result as a parameter: not a text any parser reads
+            try:
+                b_ = sem.query(parse_sql(str(s_.query), 'mindsdb'))
+            except sem.Unsupported:
+                continue
+            except Exception as e:   # noqa
+                b_ = 'unparsable:%s' % type(e).__name__
+            if a_ != b_:
+                out['fetch_text_mismatch'].append(str(s_.query))
     try:
         steps = _rename(sem.plan_steps(plan), back)
     except sem.Unsupported as e:
